@@ -99,6 +99,13 @@ def run(cfg, ops=None, rng=None):
                 battery(step, world, model, res, op, status, exc)
         except Watchdog as wd:
             raise Violation("C04", "hang", step, "nav:hang", "after step %d %s: a navigation query does not terminate (%s)" % (step, op, wd))
+        except Violation:
+            raise
+        except (RecursionError, MemoryError):
+            res.bump("batteries_ended_by_stack_or_memory_exhaustion")  # (a limit of Python on deep trees, not a property)
+        except Exception as e:  # noqa: BLE001
+            # every value is defined for every node of a consistent forest: no query has a reason to raise
+            raise Violation("C04", "raises", step, "nav:raises:" + type(e).__name__, "after step %d %s: a navigation query raised %s: %s" % (step, op, type(e).__name__, e))
 
     res = struct.run(cfg, ops=ops, rng=rng, extra=extra)
     if res.violation is None and not cfg.get("big") and getattr(res, "world", None) is not None and res.steps % 2 == 0:
